@@ -1,59 +1,56 @@
-(* Array case kind of the container engine (C19): extracted model + extracted list spec. *)
+(* Array case kind of the container engine (C19): the extracted model step [arr_step] and the
+   extracted reference step [aspec_step] (the objects of theorem C19_array_run_refines) are
+   run over the same operations; both print the tokens harness/dsa_arr.c prints. *)
 open DsaModel
 (*INCLUDE conv.inc*)
 
-let status_str = function
-  | Ok _ -> "0"
-  | Err s -> string_of_z s
-  | UB _ -> "UB"
+let opt_str = function None -> "N" | Some v -> string_of_z v
+let res_str = function
+  | RStatus s -> string_of_z s
+  | RRemoved v -> "0:" ^ string_of_z v
+  | RVal o -> opt_str o
+  | RLen n -> string_of_int (int_of_nat n)
+  | RUB -> "UB"
+
+let parse_op op =
+  match split_on ':' op with
+  | ["il"; v] -> Some (AInsLast (z_of_string v))
+  | ["if"; v] -> Some (AInsFirst (z_of_string v))
+  | ["ia"; i; v] -> Some (AInsAt (nat_of_int (int_of_string i), z_of_string v))
+  | ["rf"] -> Some ARemFirst
+  | ["rl"] -> Some ARemLast
+  | ["ra"; i] -> Some (ARemAt (nat_of_int (int_of_string i)))
+  | ["at"; i] -> Some (AAt (nat_of_int (int_of_string i)))
+  | ["first"] -> Some AFirst
+  | ["last"] -> Some ALast
+  | ["len"] -> Some ALen
+  | _ -> None
 
 (* returns (model tokens, spec tokens, class) *)
 let run_arr ops =
-  let a = ref arr_create in
-  let spec = ref [] in
+  let a = ref arr_create and spec = ref [] in
   let mt = ref [] and st = ref [] in
-  let ub = ref false in
-  let nontriv = ref 0 in
-  let emit_m s = mt := s :: !mt and emit_s s = st := s :: !st in
-  let opt_str = function None -> "N" | Some v -> string_of_z v in
-  let ins idx v =
-    (match arr_insertdata_at true !a (nat_of_int idx) (z_of_int v) with
-     | Ok a' -> a := a'; emit_m "0"; incr nontriv
-     | Err s -> emit_m (string_of_z s)
-     | UB _ -> ub := true; emit_m "UB");
-    (match spec_insert !spec (nat_of_int idx) (z_of_int v) with
-     | Some l -> spec := l; emit_s "0"
-     | None -> emit_s "2") in
-  let rem idx =
-    (match arr_remove_at !a (nat_of_int idx) with
-     | Ok (a', v) -> a := a'; emit_m ("0:" ^ string_of_z v); incr nontriv
-     | Err s -> emit_m (string_of_z s)
-     | UB _ -> ub := true; emit_m "UB");
-    (match spec_remove !spec (nat_of_int idx) with
-     | Some (l, v) -> spec := l; emit_s ("0:" ^ string_of_z v)
-     | None -> emit_s "2") in
+  let ub = ref false and nontriv = ref 0 in
+  let drained = ref false and grown = ref 0 in
   List.iter (fun op ->
     if op <> "" then
-    match split_on ':' op with
-    | ["il"; v] -> ins (int_of_nat (arr_len !a)) (int_of_string v)
-    | ["if"; v] -> ins 0 (int_of_string v)
-    | ["ia"; i; v] -> ins (int_of_string i) (int_of_string v)
-    | ["rf"] -> rem 0
-    | ["rl"] -> let n = int_of_nat (arr_len !a) in
-      if n = 0 then (emit_m "2"; emit_s "2") else rem (n - 1)
-    | ["ra"; i] -> rem (int_of_string i)
-    | ["at"; i] -> emit_m (opt_str (arr_at !a (nat_of_int (int_of_string i))));
-      emit_s (opt_str (nth_error !spec (nat_of_int (int_of_string i))))
-    | ["first"] -> emit_m (opt_str (arr_at !a O)); emit_s (opt_str (nth_error !spec O))
-    | ["last"] -> let n = int_of_nat (arr_len !a) in
-      emit_m (if n = 0 then "N" else opt_str (arr_at !a (nat_of_int (n - 1))));
-      let sn = List.length !spec in
-      emit_s (if sn = 0 then "N" else opt_str (nth_error !spec (nat_of_int (sn - 1))))
-    | ["len"] -> emit_m (string_of_int (int_of_nat (arr_len !a))); emit_s (string_of_int (List.length !spec))
-    | _ -> emit_m "BADOP"; emit_s "BADOP") ops;
+    match parse_op op with
+    | None -> mt := "BADOP" :: !mt; st := "BADOP" :: !st
+    | Some o ->
+      let before = int_of_nat (arr_len !a) in
+      let (a', r) = arr_step true !a o in
+      let (l', r') = aspec_step !spec o in
+      (match r with RUB -> ub := true | _ -> ());
+      if int_of_nat (arr_len a') <> before then incr nontriv;
+      (* the offset would reach alloc_cnt: the state that used to reject every later insert *)
+      if before = 1 && int_of_nat (arr_len a') = 0 && int_of_nat (a_off !a) + 1 = List.length (a_cells !a) then drained := true;
+      if List.length (a_cells a') > List.length (a_cells !a) then incr grown;
+      a := a'; spec := l';
+      mt := res_str r :: !mt; st := res_str r' :: !st) ops;
   let dump l = "dump=" ^ String.concat "," (List.map string_of_z l) in
-  emit_m (dump (arr_abs !a)); emit_s (dump !spec);
+  mt := dump (arr_abs !a) :: !mt; st := dump !spec :: !st;
   (String.concat " " (List.rev !mt), String.concat " " (List.rev !st),
-   if !ub then "model-ub" else if !nontriv >= 2 then "arr" else "trivial")
+   if !ub then "model-ub" else if !nontriv < 2 then "trivial"
+   else "arr" ^ (if !drained then "-drained" else "") ^ (if !grown >= 3 then "-grow3" else ""))
 
 let () = Dsa_reg.register "arr" run_arr
